@@ -255,6 +255,35 @@ fn one_case<const N: usize>(ctx: &mut Ctx, idx: usize) {
         }
         let (kp2, kpd2) = des_keypair::<N>(ctx);
         let _ = verify_check(ctx, kp2.public_key(), &kpd2.pk, &sig, &ms, Some(false), "other-key");
+        // neighbour keys: keygen-shaped keys that share all but one ingredient with the signing key (same generators and
+        // another x; another single y_i; another g1 only; another g2 only).  Verification must depend on the *whole* key:
+        // anything keyed on part of it (a cache of prepared key material, a short fingerprint) shows up here, in both
+        // orders — the old signature under the neighbour, then a fresh neighbour signature under both keys.
+        let g1 = kpd.pk.g1; let g2 = kpd.pk.g2;
+        for variant in 0..4usize {
+            let (mut x, mut ys, mut h1, mut h2) = (kpd.x, kpd.ys.clone(), g1, g2);
+            match variant {
+                0 => x = nonzero(&mut ctx.prng),
+                1 => { let i = ctx.prng.gen_range(0..N); ys[i] = nonzero(&mut ctx.prng); }
+                2 => h1 = nonzero(&mut ctx.prng),
+                _ => h2 = nonzero(&mut ctx.prng),
+            }
+            let d2 = wire::KpD::honest(x, ys, h1, h2);
+            let kp2: KeyPair<N> = match wire::keypair::<N>(&ctx.book, &d2) { Ok(k) => k, Err(_) => continue };
+            let what = ["neighbour-key-x", "neighbour-key-y", "neighbour-key-g1", "neighbour-key-g2"][variant];
+            let _ = verify_check(ctx, kp2.public_key(), &d2.pk, &sig, &ms, None, what);
+            let mut rng = ScriptedRng::new(ctx.prng.gen(), ctx.book.clone());
+            let sig2 = wire::msg::<N>(&ms).sign(&mut rng, &kp2);
+            let h2d = match ctx.book.dlog_g1(&sig2.sigma1()) { Some(h) => h, None => continue };
+            let e2 = d2.ys.iter().zip(ms.iter()).fold(d2.x, |a, (y, m)| a + y * m);
+            if !ctx.book.check_g1(&sig2.sigma2(), e2 * h2d) {
+                ctx.violation("a signature made with a neighbour key is not (h, h^(x + <y, m>))", json!({"class": "neighbour-key-sign", "variant": what}));
+                continue;
+            }
+            let _ = verify_check(ctx, kp2.public_key(), &d2.pk, &sig2, &ms, Some(true), what);
+            let _ = verify_check(ctx, kp.public_key(), &kpd.pk, &sig2, &ms, None, what);
+            let _ = verify_check(ctx, kp.public_key(), &kpd.pk, &sig, &ms, Some(true), what);
+        }
     }
 }
 
